@@ -301,7 +301,7 @@ def conditions(prop, tier):
                         extra_pre=['in32x(a, b)'] if q else [],
                         bounds='type assignment form %d (plain, TEXTUAL-CONVENTION, SEQUENCE, CHOICE) x 9 SYNTAX variants, DISPLAY-HINT/REFERENCE on/off, numbers unbounded' % form))
     out.append(dict(name='C02.tree.file-layout', fn='file_layout', fixed={}, timeout=t,
-                    extra_pre=['k0 <= 2 and k1 <= 2 and k2 <= 1 and p < 3 and n1 <= 1'] if q else [],
+                    extra_pre=['n0 <= 2 and n1 <= 1 and p < 2 and k0 <= 2 and k1 <= 2 and k2 == 0'] if q else [],
                     bounds='1..2 modules per file, 0..3 declarations of symbolic kind (value, object, TC, notification, MACRO) in symbolic order'))
     for fam in range(7):
         if q and fam in (2, 5, 6):
